@@ -6,11 +6,23 @@
    lexer is back in code mode at the end.  [<l>_tmpl indent docs] is the comment fragment of language
    l for the doc strings [docs]. *)
 From Coq Require Import List String.
-From TS Require Import Model.Str Model.Outcome Model.Unicode Model.Types Model.Parse.
+From TS Require Import Model.Str Model.Outcome Model.Unicode Model.Syntax Model.Attrs Model.Types Model.Parse.
 From TS Require Import Model.Lang.TypeScript Model.Lang.Kotlin Model.Lang.Swift Model.Lang.Scala Model.Lang.Go Model.Lang.Python.
 From TS Require Import Spec.Lexers Spec.C15Spec.
 From TS Require Proofs.C15.
 Import ListNotations.
+
+(* ---- front end: parse_comment_attrs delivers one string per doc attribute (which is what `/// s`,
+   `/** s */` and #[doc = "s"] all are to syn), in order, trimmed and otherwise RAW: embedded line breaks,
+   comment terminators, quotes and backslashes arrive unchanged at the six printers ---- *)
+Theorem C15_front_raw_doc_strings : forall uc attrs,
+  parse_comment_attrs uc attrs =
+  flat_map (fun a => match a_meta a with
+                     | MNV p (VStr s) => if path_is_ident p (lit "doc") then [trim uc s] else []
+                     | _ => []
+                     end) attrs.
+Proof. exact Proofs.C15.parse_comment_attrs_spec. Qed.
+Print Assumptions C15_front_raw_doc_strings.
 
 (* ---- the fragments of Spec/C15Spec.v are what the model's six write_comments print, for any doc
    list and any indentation: same text, and the doc pieces are exactly the doc strings, in order
